@@ -23,6 +23,12 @@ CLAIMED = {
     "C19": dict(technique="TLA+ reference enumerated by TLC, every state executed on the implementation", ref="5 C19",
                 text=FUNC_TEXT, note=FUNC_NOTE, engine="tlc-func"),
     "C01": dict(technique="TLA+ model checking (TLC) + spec-to-code replay + trace validation", ref="5 C01"),
+    "C05": dict(technique="TLA+ reference (Hamiltonian.tla structure + PulserRender.tla per-atom drive) checked by TLC, compared entrywise with QutipEmulator.get_hamiltonian on TLC-generated behaviours", ref="5 C05",
+                text="TLC enumerates the matrix structure of the documented Hamiltonian (Hamiltonian.tla: which entry carries which term in the documented level order and register tensor order; Hermiticity, locality and counting laws checked by TLC) and, for every behaviour of the render configurations explored from the scheduler model, the per-atom Omega/delta/phi attribution (PulserRender.tla); the harness evaluates the terms numerically and compares QutipEmulator.get_hamiltonian(t) entry by entry at the segment boundaries of every reachable state.",
+                note="bounded: 3 atoms, the render configurations (global/local/multi-target channels, DMM weights, SLM mask, XY with magnetic field), up to 10 sample times per state; trusted: the 20-line numeric evaluation of a term, qutip's full(); times where several pulses of different phase act on one atom and basis are not compared (not specified)"),
+    "C06": dict(technique="TLA+ reference rendering (PulserRender.tla) checked by TLC, compared with sampler.sample at every ns on TLC-generated behaviours", ref="5 C06",
+                text="For every behaviour TLC explores of the scheduler model, PulserRender.tla gives the reference rendering of the state (which slot plays at every ns of every channel, padding rules, per-atom attribution with DMM weights and XY SLM mask; well-formedness checked by TLC); the harness replays the behaviour on the tree and compares sampler.sample, extended sampling and to_nested_dict(all_local False/True) with the reference at every nanosecond.",
+                note="bounded: render configurations (ising with DMM/SLM/multi-target local, XY with two channels and SLM, EOM with/without custom buffer), depth 3 (quick) / 4 (thorough); phase compared on real pulses only; padding of a channel left in EOM mode is a don't-care in the per-atom view"),
     "C07": dict(technique="TLA+ model checking (TLC) + spec-to-code replay + trace validation", ref="5 C07"),
     "C13": dict(technique="TLA+ model checking (TLC) + spec-to-code replay + trace validation", ref="5 C13"),
     "C15": dict(technique="TLA+ model checking (TLC) + spec-to-code replay + trace validation", ref="5 C15"),
